@@ -328,8 +328,9 @@ class _ChangeComputer:
         lineno = self.lines.get_line_number(offset)
         indents = sourceutils.get_indents(self.lines, lineno)
         result = []
-        for index, line in enumerate(sourceutils.split_lines(text, True)):
-            if index != 0 and line.strip():
+        lines = sourceutils.lines_and_strings(text, True)
+        for index, (line, in_string) in enumerate(lines):
+            if index != 0 and line.strip() and not in_string:
                 result.append(" " * indents)
             result.append(line)
         return "".join(result)
